@@ -380,6 +380,163 @@ theorem apply_arrCat {S : Store} {st : St F} (hk : HeapOk S st.heap) (s : Ty) (l
     · exact hys v h)
   exact ⟨_, Grows.snoc S _, hk', vt, rfl, rfl⟩
 
+/-! ### array repetition: deep copies keep their types -/
+
+theorem alloc_arr_typed {S : Store} {st : St F} (hk : HeapOk S st.heap) (s : Ty) (hs : Reg s = true) (es : List (Val F))
+    (he : ∀ v ∈ es, VT S v s) :
+    ∃ S', Grows S S' ∧ HeapOk S' (alloc st (.arr es)).2.heap ∧ VT S' (Val.arr (F := F) (alloc st (.arr es)).1) (.arr s) := by
+  obtain ⟨hk', vt⟩ := hk.push_arr s hs es he
+  exact ⟨_, Grows.snoc S _, hk', vt⟩
+
+theorem deepCopy_typed (fuel : Nat) :
+    (∀ (S : Store) (v w : Val F) (t : Ty) (st st' : St F), HeapOk S st.heap → VT S v t → deepCopy fuel v st = some (w, st') →
+      ∃ S', Grows S S' ∧ HeapOk S' st'.heap ∧ VT S' w t ∧ st'.locals = st.locals ∧ st'.global = st.global) ∧
+    (∀ (S : Store) (vs ws : List (Val F)) (t : Ty) (st st' : St F), HeapOk S st.heap → (∀ v ∈ vs, VT S v t) →
+      deepCopyList fuel vs st = some (ws, st') →
+      ∃ S', Grows S S' ∧ HeapOk S' st'.heap ∧ (∀ w ∈ ws, VT S' w t) ∧ st'.locals = st.locals ∧ st'.global = st.global) ∧
+    (∀ (S : Store) (ps qs : List (Key × Val F)) (t : Ty) (st st' : St F), HeapOk S st.heap → (∀ p ∈ ps, VT S p.2 t) →
+      deepCopyPairs fuel ps st = some (qs, st') →
+      ∃ S', Grows S S' ∧ HeapOk S' st'.heap ∧ (∀ q ∈ qs, VT S' q.2 t) ∧ st'.locals = st.locals ∧ st'.global = st.global) := by
+  induction fuel with
+  | zero => refine ⟨?_, ?_, ?_⟩ <;> intros <;> simp_all [deepCopy, deepCopyList, deepCopyPairs]
+  | succ n ih =>
+    obtain ⟨ihV, ihL, ihP⟩ := ih
+    refine ⟨?_, ?_, ?_⟩
+    · intro S v w t st st' hk hv h
+      cases hv with
+      | num x => simp [deepCopy] at h; obtain ⟨rfl, rfl⟩ := h; exact ⟨S, Grows.refl S, hk, .num x, rfl, rfl⟩
+      | str x => simp [deepCopy] at h; obtain ⟨rfl, rfl⟩ := h; exact ⟨S, Grows.refl S, hk, .str x, rfl, rfl⟩
+      | bool x => simp [deepCopy] at h; obtain ⟨rfl, rfl⟩ := h; exact ⟨S, Grows.refl S, hk, .bool x, rfl, rfl⟩
+      | any t1 v1 hne h1 =>
+        simp only [deepCopy, Option.map_eq_some_iff] at h
+        obtain ⟨⟨w1, s1⟩, hd, heq⟩ := h
+        simp at heq; obtain ⟨rfl, rfl⟩ := heq
+        obtain ⟨S1, g1, hk1, hw1, l1, gl1⟩ := ihV S v1 w1 t1 st s1 hk h1 hd
+        exact ⟨S1, g1, hk1, .any t1 w1 hne hw1, l1, gl1⟩
+      | arr a s ha =>
+        obtain ⟨es, he, hes⟩ := hk.arr a s ha
+        have hs : Reg s = true := by have := hk.reg _ (List.mem_of_getElem? ha); simpa [Reg] using this
+        simp only [deepCopy, heapGet, he] at h
+        cases hd : deepCopyList n es st with
+        | none => rw [hd] at h; simp at h
+        | some r =>
+          obtain ⟨ws, s1⟩ := r
+          rw [hd] at h
+          simp only [alloc] at h
+          simp at h; obtain ⟨rfl, rfl⟩ := h
+          obtain ⟨S1, g1, hk1, hws, l1, gl1⟩ := ihL S es ws s st s1 hk hes hd
+          obtain ⟨hk', vt⟩ := hk1.push_arr s hs ws hws
+          exact ⟨_, g1.trans (Grows.snoc S1 _), hk', vt, l1, gl1⟩
+      | map a s ha =>
+        obtain ⟨m, he, hms⟩ := hk.map a s ha
+        have hs : Reg s = true := by have := hk.reg _ (List.mem_of_getElem? ha); simpa [Reg] using this
+        simp only [deepCopy, heapGet, he] at h
+        cases hd : deepCopyPairs n m.pairs st with
+        | none => rw [hd] at h; simp at h
+        | some r =>
+          obtain ⟨qs, s1⟩ := r
+          rw [hd] at h
+          simp only [alloc] at h
+          simp at h; obtain ⟨rfl, rfl⟩ := h
+          obtain ⟨S1, g1, hk1, hqs, l1, gl1⟩ := ihP S m.pairs qs s st s1 hk hms hd
+          obtain ⟨hk', vt⟩ := hk1.push_map s hs { pairs := qs, order := m.order } hqs
+          exact ⟨_, g1.trans (Grows.snoc S1 _), hk', vt, l1, gl1⟩
+    · intro S vs ws t st st' hk hvs h
+      cases vs with
+      | nil => simp [deepCopyList] at h; obtain ⟨rfl, rfl⟩ := h; exact ⟨S, Grows.refl S, hk, (by intro w hw; cases hw), rfl, rfl⟩
+      | cons v rest =>
+        simp only [deepCopyList] at h
+        cases hd : deepCopy n v st with
+        | none => rw [hd] at h; simp at h
+        | some r =>
+          obtain ⟨w, s1⟩ := r
+          rw [hd] at h
+          simp only [Option.map_eq_some_iff] at h
+          obtain ⟨⟨ws', s2⟩, hd2, heq⟩ := h
+          simp at heq; obtain ⟨rfl, rfl⟩ := heq
+          obtain ⟨S1, g1, hk1, hw1, l1, gl1⟩ := ihV S v w t st s1 hk (hvs v List.mem_cons_self) hd
+          obtain ⟨S2, g2, hk2, hws2, l2, gl2⟩ := ihL S1 rest ws' t s1 s2 hk1
+            (fun x hx => (hvs x (List.mem_cons_of_mem _ hx)).mono g1) hd2
+          refine ⟨S2, g1.trans g2, hk2, ?_, l2.trans l1, gl2.trans gl1⟩
+          intro x hx
+          rcases List.mem_cons.mp hx with h' | h'
+          · subst h'; exact hw1.mono g2
+          · exact hws2 x h'
+    · intro S ps qs t st st' hk hps h
+      cases ps with
+      | nil => simp [deepCopyPairs] at h; obtain ⟨rfl, rfl⟩ := h; exact ⟨S, Grows.refl S, hk, (by intro w hw; cases hw), rfl, rfl⟩
+      | cons p rest =>
+        obtain ⟨k, v⟩ := p
+        simp only [deepCopyPairs] at h
+        cases hd : deepCopy n v st with
+        | none => rw [hd] at h; simp at h
+        | some r =>
+          obtain ⟨w, s1⟩ := r
+          rw [hd] at h
+          simp only [Option.map_eq_some_iff] at h
+          obtain ⟨⟨qs', s2⟩, hd2, heq⟩ := h
+          simp at heq; obtain ⟨rfl, rfl⟩ := heq
+          obtain ⟨S1, g1, hk1, hw1, l1, gl1⟩ := ihV S v w t st s1 hk (hps (k, v) List.mem_cons_self) hd
+          obtain ⟨S2, g2, hk2, hqs2, l2, gl2⟩ := ihP S1 rest qs' t s1 s2 hk1
+            (fun x hx => (hps x (List.mem_cons_of_mem _ hx)).mono g1) hd2
+          refine ⟨S2, g1.trans g2, hk2, ?_, l2.trans l1, gl2.trans gl1⟩
+          intro x hx
+          rcases List.mem_cons.mp hx with h' | h'
+          · subst h'; exact hw1.mono g2
+          · exact hqs2 x h'
+
+theorem replicate_typed (fuel : Nat) (s : Ty) : ∀ (k : Nat) (S : Store) (a : Nat) (st st' : St F) (es : List (Val F)),
+    HeapOk S st.heap → S[a]? = some (.arr s) → replicateCopies k fuel (.arr a) st = some (es, st') →
+    ∃ S', Grows S S' ∧ HeapOk S' st'.heap ∧ (∀ v ∈ es, VT S' v s) ∧ st'.locals = st.locals ∧ st'.global = st.global := by
+  intro k
+  induction k with
+  | zero =>
+    intro S a st st' es hk _ h
+    simp [replicateCopies] at h; obtain ⟨rfl, rfl⟩ := h
+    exact ⟨S, Grows.refl S, hk, (by intro v hv; cases hv), rfl, rfl⟩
+  | succ k ih =>
+    intro S a st st' es hk ha h
+    simp only [replicateCopies] at h
+    cases hd : deepCopy fuel (.arr a) st with
+    | none => rw [hd] at h; simp at h
+    | some r =>
+      obtain ⟨w, s1⟩ := r
+      rw [hd] at h
+      obtain ⟨S1, g1, hk1, hw1, l1, gl1⟩ := (deepCopy_typed fuel).1 S (.arr a) w (.arr s) st s1 hk (.arr a s ha) hd
+      obtain ⟨b, rfl, hb⟩ := hw1.arr_inv
+      obtain ⟨cs, hc, hcs⟩ := hk1.arr b s hb
+      simp only [heapGet, hc, Option.map_eq_some_iff] at h
+      obtain ⟨⟨rest, s2⟩, hr, heq⟩ := h
+      simp at heq; obtain ⟨rfl, rfl⟩ := heq
+      obtain ⟨S2, g2, hk2, hrest, l2, gl2⟩ := ih S1 a s1 s2 rest hk1 (g1.get ha) hr
+      refine ⟨S2, g1.trans g2, hk2, ?_, l2.trans l1, gl2.trans gl1⟩
+      intro v hv
+      rcases List.mem_append.mp hv with h' | h'
+      · exact (hcs v h').mono g2
+      · exact hrest v h'
+
+theorem apply_arrRep {S : Store} {st : St F} (hk : HeapOk S st.heap) (s : Ty) (l : Val F) (n : F)
+    (hl : VT S l (.arr s)) :
+    Good (PV (.arr s)) S st (applyBinary ops ext st .asterisk l (.num n)) := by
+  obtain ⟨a, rfl, ha⟩ := hl.arr_inv
+  obtain ⟨ls, hx, _⟩ := hk.arr a s ha
+  have hs : Reg s = true := by have := hk.reg _ (List.mem_of_getElem? ha); simpa [Reg] using this
+  simp only [applyBinary, binArr, heapGet, hx, Bool.or_self, Bool.false_eq_true, if_false, reduceCtorEq, decide_false]
+  split
+  · exact trivial
+  · split
+    · exact trivial
+    · split
+      · exact trivial
+      · cases hr : replicateCopies (if ls.length = 0 then 0 else (ops.toInt n).toNat) (auxFuel st) (.arr a) st with
+        | none => exact trivial
+        | some r =>
+          obtain ⟨es, s1⟩ := r
+          obtain ⟨S1, g1, hk1, hes, l1, gl1⟩ := replicate_typed (auxFuel st) s _ S a st s1 es hk ha hr
+          simp only [alloc]
+          obtain ⟨hk', vt⟩ := hk1.push_arr s hs es hes
+          exact ⟨_, g1.trans (Grows.snoc S1 _), hk', vt, l1, gl1⟩
+
 theorem sc_bool {op : Op} {v : Val F} (h : canShortCircuit op v = true) : isLogic op = true ∧ ∃ b, v = .bool b := by
   unfold canShortCircuit at h
   split at h
